@@ -1,7 +1,10 @@
 // C06 — cycle detection is sound and complete.
 // Monitor: reference Tarjan SCC vs core's cycle detector (through core.VerifCheckCycle) on
 // exhaustively enumerated small digraphs and seeded random larger ones; every reported cycle is
-// validated edge by edge against the resolved dependency lists.
+// validated edge by edge against the case's own edge list and the resolved dependency lists.
+// Label assignments include hidden `_name#tag` children of other nodes of the same graph (the shape
+// build definitions generate), so that a detector which walks or reports anything other than the
+// direct dependency edges (e.g. "external" dependencies that skip a target's own children) is seen.
 package c06
 
 import (
@@ -106,21 +109,95 @@ func checkOne(r *lib.Run, idx int, g graphCase) {
 		return
 	}
 	r.ObsDistinct("cycle_lengths", fmt.Sprint(len(cycle)))
-	// Every listed target must depend on the next, the last on the first.
-	_ = ts
+	// Every listed target must be a target of this graph, listed once, and must directly depend on
+	// the next, the last on the first. "Directly depends" is decided by the case's own edge list
+	// (independent of core) and, as before, by the resolved dependency list.
+	index := map[*core.BuildTarget]int{}
+	for i, t := range ts {
+		index[t] = i
+	}
+	edge := map[[2]int]bool{}
+	for _, e := range g.Edges {
+		edge[e] = true
+	}
+	listed := map[*core.BuildTarget]bool{}
+	hidden := false
 	for i, t := range cycle {
 		next := cycle[(i+1)%len(cycle)]
+		ti, ok1 := index[t]
+		ni, ok2 := index[next]
+		if !ok1 || !ok2 {
+			r.Violation("bogus-cycle-member", fmt.Sprintf("reported cycle %v lists a target that is not in the graph %s", labels(cycle), g.String()), g, idx)
+			return
+		}
+		if listed[t] {
+			r.Violation("bogus-cycle-repeat/"+namingClass(g), fmt.Sprintf("reported cycle %v lists %s twice in %s (%s)", labels(cycle), t.Label, g.String(), shape), g, idx)
+			return
+		}
+		listed[t] = true
 		ok := false
 		for _, d := range t.Dependencies() {
 			if d == next {
 				ok = true
 			}
 		}
-		if !ok {
-			r.Violation("bogus-cycle-edge/"+shapeClass(g), fmt.Sprintf("reported cycle %v has no edge %s -> %s in %s (%s)", labels(cycle), t.Label, next.Label, g.String(), shape), g, idx)
+		if !ok || !edge[[2]int{ti, ni}] {
+			r.Violation("bogus-cycle-edge/"+hopClass(g, ti), fmt.Sprintf("reported cycle %v has no edge %s -> %s in %s (%s)", labels(cycle), t.Label, next.Label, g.String(), shape), g, idx)
 			return
 		}
+		if t.Label.HasParent() || next.Label.HasParent() {
+			hidden = true
+		}
 	}
+	if hidden {
+		r.Obs("cycles_through_hidden_children", 1)
+	}
+}
+
+// parentOf returns, for every node, the index of the node its label names as parent (-1 if none
+// or if no node of the graph carries that label).
+func parentOf(g graphCase) []int {
+	byName := map[string]int{}
+	for i, nm := range g.Names {
+		byName[nm] = i
+	}
+	out := make([]int, g.N)
+	for i, nm := range g.Names {
+		out[i] = -1
+		l := core.ParseBuildLabel(nm, "")
+		if l.HasParent() {
+			if p, ok := byName[l.Parent().String()]; ok {
+				out[i] = p
+			}
+		}
+	}
+	return out
+}
+
+// namingClass says whether the label assignment contains hidden children of other nodes.
+func namingClass(g graphCase) string {
+	for _, p := range parentOf(g) {
+		if p >= 0 {
+			return "hidden-children"
+		}
+	}
+	return "plain-labels"
+}
+
+// hopClass names the class of a bogus hop by what its source is: a target that depends on one of
+// its own hidden `_name#tag` children (the place where "external" views of the graph differ from
+// the direct edges), a hidden child itself, or an ordinary target (then the structural class).
+func hopClass(g graphCase, from int) string {
+	par := parentOf(g)
+	if par[from] >= 0 {
+		return "from-hidden-child"
+	}
+	for _, e := range g.Edges {
+		if e[0] == from && par[e[1]] == from {
+			return "from-parent-of-hidden-child"
+		}
+	}
+	return shapeClass(g)
 }
 
 // shapeClass names the structural class of a failing graph so that known-finding keys stay specific.
@@ -151,16 +228,58 @@ func names(n int, rng *rand.Rand) []string {
 	return out
 }
 
+// hideChildren renames the nodes listed in child (child[k] = parent index, parents are never
+// renamed themselves) to hidden `_<parent>#<tag>` labels in the parent's package. The number of
+// leading underscores and the tag vary: `__x#a` and `_x#a#b` are children of x as well.
+func hideChildren(nm []string, child map[int]int) []string {
+	out := append([]string(nil), nm...)
+	keys := make([]int, 0, len(child))
+	for k := range child {
+		keys = append(keys, k)
+	}
+	sort.Ints(keys)
+	for _, k := range keys {
+		p := core.ParseBuildLabel(nm[child[k]], "")
+		form := []string{"_%s#c%d", "__%s#c%d", "_%s#c%d#x", "_%s#%d"}[k%4]
+		out[k] = fmt.Sprintf("//%s:"+form, p.PackageName, p.Name, k)
+	}
+	return out
+}
+
+// hiddenNamings are the label assignments with hidden children used in the exhaustive scope:
+// one child; every other node a child of node 0; two parent/child pairs; children of the last node
+// (which sorts after them, so the detector enters through the child first).
+func hiddenNamings(n int) [][]string {
+	if n < 2 {
+		return nil
+	}
+	base := names(n, nil)
+	out := [][]string{hideChildren(base, map[int]int{1: 0})}
+	if n >= 3 {
+		all := map[int]int{}
+		for k := 1; k < n; k++ {
+			all[k] = 0
+		}
+		out = append(out, hideChildren(base, all))
+		out = append(out, hideChildren(base, map[int]int{0: n - 1}))
+	}
+	if n >= 4 {
+		out = append(out, hideChildren(base, map[int]int{1: 0, 3: 2}))
+	}
+	return out
+}
+
 func TestC06(t *testing.T) {
 	iplib.Quiet()
 	r := lib.Start("C06")
 	defer lib.End(t, r)
-	r.Rule = "digraphs without self-loops (the API forbids them): exhaustive over all edge sets for n<=4 (quick) / n<=5 (thorough), each under two label assignments; then seeded random graphs of 6-40 nodes with planted cycles behind completed subgraphs. Distinct by edge list+naming; non-trivial = cyclic with >=2 edges"
+	r.Rule = "digraphs without self-loops (the API forbids them): exhaustive over all edge sets for n<=4 (quick) / n<=5 (thorough), each under two plain label assignments and up to four with hidden `_name#tag` children of other nodes; then seeded random graphs of 6-40 nodes with planted cycles behind completed subgraphs, half of them with hidden children whose parents depend on them and cycles planted through a parent->child hop. Distinct by edge list+naming; non-trivial = cyclic with >=2 edges"
 	r.Assumes = []string{"graphs are built through core.NewBuildTarget/AddDependency/AddTarget/ResolveDependencies; the detector is entered through core.VerifCheckCycle (export_verif.go)"}
 
 	// Exhaustive small scope.
 	maxN := r.Pick(4, 5)
 	exhaustive := 0
+	var perN []string
 	if !r.Replaying() {
 		for n := 1; n <= maxN; n++ {
 			var pairs [][2]int
@@ -173,6 +292,13 @@ func TestC06(t *testing.T) {
 			}
 			rev := names(n, nil)
 			sort.Sort(sort.Reverse(sort.StringSlice(rev)))
+			namings := [][]string{names(n, nil), rev}
+			if hn := hiddenNamings(n); n <= 4 {
+				namings = append(namings, hn...)
+			} else {
+				namings = append(namings, hn[0]) // 2^20 edge sets: one hidden naming keeps the thorough tier in budget
+			}
+			perN = append(perN, fmt.Sprintf("n=%d:%d namings", n, len(namings)))
 			for mask := 0; mask < 1<<len(pairs); mask++ {
 				var edges [][2]int
 				for b, p := range pairs {
@@ -180,14 +306,14 @@ func TestC06(t *testing.T) {
 						edges = append(edges, p)
 					}
 				}
-				for _, nm := range [][]string{names(n, nil), rev} {
+				for _, nm := range namings {
 					r.Guard(mask, func() { checkOne(r, mask, graphCase{N: n, Edges: edges, Names: nm}) })
 					exhaustive++
 				}
 			}
 		}
 		r.Exhaustive = true
-		r.Extra("exhaustive_scope", fmt.Sprintf("all loop-free digraphs on 1..%d nodes x 2 namings = %d graphs", maxN, exhaustive))
+		r.Extra("exhaustive_scope", fmt.Sprintf("all loop-free digraphs on 1..%d nodes x (plain, reversed, hidden-children namings: %s) = %d graphs", maxN, strings.Join(perN, " "), exhaustive))
 	}
 
 	// Seeded random larger graphs.
@@ -210,15 +336,56 @@ func TestC06(t *testing.T) {
 				}
 			}
 		}
-		// Optionally plant a cycle among high-index nodes (reached late, through completed subgraphs).
+		// Half of the graphs carry hidden children: some nodes are renamed `_<parent>#<tag>` for
+		// another (never renamed) node of the graph, and the parent usually depends on its child, as
+		// the targets a build definition generates do.
+		child := map[int]int{}
+		var pairs [][2]int // (parent, child)
+		if rng.Intn(2) == 0 {
+			nparents := 1 + rng.Intn(1+n/4)
+			perm := rng.Perm(n)
+			parents := perm[:nparents]
+			for _, k := range perm[nparents:] {
+				if rng.Intn(3) == 0 {
+					child[k] = parents[rng.Intn(nparents)]
+					pairs = append(pairs, [2]int{child[k], k})
+				}
+			}
+			for _, pc := range pairs {
+				if rng.Intn(4) != 0 {
+					add(pc[0], pc[1])
+				}
+			}
+		}
+		// Optionally plant a cycle among high-index nodes (reached late, through completed subgraphs);
+		// with hidden children, usually one that passes from a parent through its own child.
 		if rng.Intn(2) == 0 {
 			k := 2 + rng.Intn(5)
 			nodes := rng.Perm(n)[:k]
+			if len(pairs) > 0 && rng.Intn(3) != 0 {
+				pc := pairs[rng.Intn(len(pairs))]
+				rest := nodes[:0:0]
+				for _, x := range nodes {
+					if x != pc[0] && x != pc[1] {
+						rest = append(rest, x)
+					}
+				}
+				if len(rest) > k-2 {
+					rest = rest[:k-2]
+				}
+				nodes = append([]int{pc[0], pc[1]}, rest...)
+				k = len(nodes)
+			}
 			for j := range nodes {
 				add(nodes[j], nodes[(j+1)%k])
 			}
 		}
-		checkOne(r, i, graphCase{N: n, Edges: edges, Names: names(n, rng)})
+		nm := names(n, rng)
+		if len(child) > 0 {
+			nm = hideChildren(nm, child)
+			r.Obs("random_graphs_with_hidden_children", 1)
+		}
+		checkOne(r, i, graphCase{N: n, Edges: edges, Names: nm})
 	})
-	r.RequireObserved("cyclic_graphs", "acyclic_graphs")
+	r.RequireObserved("cyclic_graphs", "acyclic_graphs", "cycles_through_hidden_children")
 }
